@@ -273,7 +273,7 @@ fn pay(ctx: &mut Ctx, w: &World, view: &mut View, ch: &mut Chan) -> bool {
 }
 
 pub fn run(ctx: &mut Ctx) {
-    let n = if ctx.thorough() { 24 } else { 3 };
+    let n = if ctx.thorough() { 10 } else { 3 };
     let w = match world(ctx, false) { Some(w) => w, None => { ctx.broken("cannot build a world"); return; } };
     for k in 0..n {
         let idx = k * ctx.nshards + ctx.shard;
@@ -284,6 +284,8 @@ pub fn run(ctx: &mut Ctx) {
         let mut chans: Vec<Chan> = (0..nch).map(|i| { let a = Agreed::random(ctx); Chan { cb: a.cb, mb: a.mb, a, stage: None, payments: 0, closed: false, tag: format!("channel-{}", i) } }).collect();
         let mut ok = true;
         for ch in chans.iter_mut() { if !establish(ctx, &w, &mut view, ch) { ok = false; } }
+        // degenerate draws right after establishment (the merchant has issued a closing signature and a pay token)
+        if let Some(ch) = chans.iter().find(|c| !c.closed && c.stage.is_some()) { zero_draw_probes(ctx, &w, &mut view, ch); }
         // interleaved sessions
         let sessions = ctx.prng.gen_range(3..=6);
         for _ in 0..sessions {
@@ -294,7 +296,7 @@ pub fn run(ctx: &mut Ctx) {
             if !pay(ctx, &w, &mut view, ch) { ok = false; }
         }
         // degenerate draws, on every channel still open
-        if ok { for ch in chans.iter() { if !ch.closed && ch.payments > 0 { zero_draw_probes(ctx, &w, &mut view, ch); } } }
+        for ch in chans.iter() { if !ch.closed && ch.payments > 0 { zero_draw_probes(ctx, &w, &mut view, ch); } }
         // every channel still open is closed from wherever it stands (Ready)
         for ch in chans.iter_mut() { if ok && !ch.closed && ch.stage.is_some() { close_channel(ctx, &w, &mut view, ch); } }
         ctx.count(if ok { "history:complete" } else { "history:stopped-early" });
